@@ -137,6 +137,9 @@ def run_case(case):
         spec.parse()
         if case.get('pastify'):
             spec.pastify()
+        if case.get('late_period') is not None:
+            p = case['late_period']
+            spec.set_sampling_period(p[0], p[1], p[2])
         out['setup'] = {'status': 'ok', 'value': None}
     except (Exception, SystemExit) as exc:  # noqa
         out['setup'] = classify(exc)
@@ -238,6 +241,9 @@ def setup_spec(case):
     spec.parse()
     if case.get('pastify'):
         spec.pastify()
+    if case.get('late_period') is not None:
+        p = case['late_period']
+        spec.set_sampling_period(p[0], p[1], p[2])
     return spec
 
 
